@@ -422,6 +422,19 @@ pub fn run(ctx: &mut Ctx) {
                 if env_bytes(&back) != prev {
                     ctx.violation("remove-does-not-restore", "removing the assertion just added did not restore the previous envelope", replay("remove"));
                 }
+                // elements are identified by DIGEST: removing by any other form of the same assertion (its elided
+                // twin, its compressed form) removes it just the same
+                for (label, form) in [("elided", asr[i].elide()), ("compressed", asr[i].compress().unwrap_or_else(|_| asr[i].elide()))] {
+                    ctx.count("remove_by_other_form_checked");
+                    match trap::guard(|| with.remove_assertion(form.clone())) {
+                        Ok(b2) => {
+                            if env_bytes(&b2) != prev {
+                                ctx.violation(&format!("remove-by-other-form/{}", label), "removing an assertion by a digest-equal form of it (not the stored form) did not remove it", replay("remove by twin"));
+                            }
+                        }
+                        Err(p) => ctx.violation(&format!("panic/{}", p.signature()), &format!("{:?}", p), replay("remove by twin")),
+                    }
+                }
             }
             // replacing an assertion by one that is already present: the set loses the first and is
             // otherwise unchanged (the node never holds one digest twice)
